@@ -42,13 +42,55 @@ pub fn inner_yield_point() {
     });
 }
 
+/// One hooked atomic operation as it was performed: `kind` is one of `load`, `store`, `cas`
+/// (a `compare_exchange`), `rmw` (a `fetch_update` / `fetch_add` / `fetch_sub`); `cell` is the address of the
+/// atomic, `wide` tells the 64-bit cells from the pointer-sized ones; `old` / `new` are the cell's value just
+/// before and just after the operation (equal for a load, a failed `cas` and a declined `rmw`); `ok` is false
+/// for a failed `cas` and for an `rmw` that did not write.
+#[derive(Clone, Copy, Debug, PartialEq, Eq)]
+pub struct AtomicEvent {
+    /// `load` | `store` | `cas` | `rmw`
+    pub kind: &'static str,
+    /// address of the atomic
+    pub cell: usize,
+    /// true for `AtomicU64`, false for `AtomicUsize`
+    pub wide: bool,
+    /// value before
+    pub old: u64,
+    /// value after
+    pub new: u64,
+    /// whether the operation wrote (loads: true)
+    pub ok: bool,
+}
+
+/// An observer of hooked atomic operations (see [`set_observer`]).
+pub type Observer = Box<dyn Fn(AtomicEvent)>;
+
+thread_local! {
+    static OBSERVER: RefCell<Option<Observer>> = const { RefCell::new(None) };
+}
+
+/// Installs (or removes) the observer of the current thread: it is told every hooked atomic operation the
+/// thread performs, right after the operation, with the values it read and wrote.
+pub fn set_observer(obs: Option<Observer>) {
+    OBSERVER.with(|h| *h.borrow_mut() = obs);
+}
+
+fn observe(kind: &'static str, cell: usize, wide: bool, old: u64, new: u64, ok: bool) {
+    OBSERVER.with(|h| {
+        if let Some(f) = h.borrow().as_ref() {
+            f(AtomicEvent { kind, cell, wide, old, new, ok })
+        }
+    });
+}
+
 /// Drop-in replacements for the std atomics used by the budget and limit algorithms.
 pub mod atomic {
-    use super::{inner_yield_point, yield_point};
+    use super::{inner_yield_point, observe, yield_point};
     pub use std::sync::atomic::Ordering;
 
     macro_rules! hooked_atomic {
-        ($name:ident, $std:ty, $int:ty) => {
+        ($name:ident, $std:ty, $int:ty, $wide:expr) => {
             /// Hooked atomic; see the module documentation.
             #[derive(Debug, Default)]
             pub struct $name($std);
@@ -61,12 +103,15 @@ pub mod atomic {
                 /// See the std atomic.
                 pub fn load(&self, o: Ordering) -> $int {
                     yield_point();
-                    self.0.load(o)
+                    let v = self.0.load(o);
+                    observe("load", self.addr(), Self::WIDE, v as u64, v as u64, true);
+                    v
                 }
                 /// See the std atomic.
                 pub fn store(&self, v: $int, o: Ordering) {
                     yield_point();
-                    self.0.store(v, o)
+                    let old = self.0.swap(v, o);
+                    observe("store", self.addr(), Self::WIDE, old as u64, v as u64, true);
                 }
                 /// See the std atomic.
                 pub fn compare_exchange(
@@ -77,7 +122,7 @@ pub mod atomic {
                     f: Ordering,
                 ) -> Result<$int, $int> {
                     yield_point();
-                    self.0.compare_exchange(current, new, s, f)
+                    self.cas_observed(current, new, s, f)
                 }
                 /// Always the strong form under the hook: no spurious failures.
                 pub fn compare_exchange_weak(
@@ -88,17 +133,33 @@ pub mod atomic {
                     f: Ordering,
                 ) -> Result<$int, $int> {
                     yield_point();
-                    self.0.compare_exchange(current, new, s, f)
+                    self.cas_observed(current, new, s, f)
+                }
+                fn addr(&self) -> usize {
+                    &self.0 as *const _ as usize
+                }
+                const WIDE: bool = $wide;
+                fn cas_observed(&self, current: $int, new: $int, s: Ordering, f: Ordering) -> Result<$int, $int> {
+                    let r = self.0.compare_exchange(current, new, s, f);
+                    match r {
+                        Ok(old) => observe("cas", self.addr(), Self::WIDE, old as u64, new as u64, true),
+                        Err(now) => observe("cas", self.addr(), Self::WIDE, now as u64, now as u64, false),
+                    }
+                    r
                 }
                 /// One atomic read-modify-write (one yield point).
                 pub fn fetch_add(&self, v: $int, o: Ordering) -> $int {
                     yield_point();
-                    self.0.fetch_add(v, o)
+                    let old = self.0.fetch_add(v, o);
+                    observe("rmw", self.addr(), Self::WIDE, old as u64, old.wrapping_add(v) as u64, true);
+                    old
                 }
                 /// One atomic read-modify-write (one yield point).
                 pub fn fetch_sub(&self, v: $int, o: Ordering) -> $int {
                     yield_point();
-                    self.0.fetch_sub(v, o)
+                    let old = self.0.fetch_sub(v, o);
+                    observe("rmw", self.addr(), Self::WIDE, old as u64, old.wrapping_sub(v) as u64, true);
+                    old
                 }
                 /// One read-modify-write (one yield point): linearizable at its successful CAS. Written
                 /// out as std's load / closure / compare-exchange loop so that a scheduler which installs
@@ -112,16 +173,23 @@ pub mod atomic {
                     while let Some(next) = g(prev) {
                         inner_yield_point();
                         match self.0.compare_exchange(prev, next, s, f) {
-                            Ok(x) => return Ok(x),
-                            Err(now) => prev = now,
+                            Ok(x) => {
+                                observe("rmw", self.addr(), Self::WIDE, x as u64, next as u64, true);
+                                return Ok(x);
+                            }
+                            Err(now) => {
+                                observe("rmw", self.addr(), Self::WIDE, now as u64, now as u64, false);
+                                prev = now
+                            }
                         }
                     }
+                    observe("rmw", self.addr(), Self::WIDE, prev as u64, prev as u64, false);
                     Err(prev)
                 }
             }
         };
     }
 
-    hooked_atomic!(AtomicU64, std::sync::atomic::AtomicU64, u64);
-    hooked_atomic!(AtomicUsize, std::sync::atomic::AtomicUsize, usize);
+    hooked_atomic!(AtomicU64, std::sync::atomic::AtomicU64, u64, true);
+    hooked_atomic!(AtomicUsize, std::sync::atomic::AtomicUsize, usize, false);
 }
